@@ -106,8 +106,9 @@ End AMap.
 Arguments amap V : clear implicits.
 
 (* class tags: dict, dictattr, Dict, a user subclass of dictattr, a user subclass of Dict *)
-Inductive cls := CPlain | CDictattr | CDict | CUserA | CUserD.
-Definition is_Dict (c : cls) : bool := match c with CDict | CUserD => true | _ => false end.
+(* CPoint: a subclass of Dict, CKwInit: a subclass of dictattr, each with its own __init__ signature *)
+Inductive cls := CPlain | CDictattr | CDict | CUserA | CUserD | CPoint | CKwInit.
+Definition is_Dict (c : cls) : bool := match c with CDict | CUserD | CPoint => true | _ => false end.
 (* tree_items / items_to_tree recognise a branch by exact type: type(tree) in (dict, Dict, dictattr) *)
 Definition is_tree_type (c : cls) : bool := match c with CPlain | CDictattr | CDict => true | _ => false end.
 
@@ -199,6 +200,41 @@ Section DictAttr.
     let r := relabel_map (akeys d) a kw in
     DObj c (of_items (map (fun kv => (match aget (fst kv) r with Some n => n | None => fst kv end, snd kv)) d)).
 End DictAttr.
+
+(* ------------------------------------------------------------------ the Python entry points of the operators that build their
+   result through type(self)(...): for a subclass with its own __init__ signature the constructor is RE-RUN on the result
+   (CPoint: __init__(self, x = 0, y = 0, kw...), CKwInit: __init__(self, *, name = 'n', kw...)) *)
+Definition own_init (c : cls) : bool := match c with CPoint | CKwInit => true | _ => false end.
+Definition init_params (c : cls) : list string := match c with CPoint => ["x"%string; "y"%string] | CKwInit => ["name"%string] | _ => [] end.
+Section Rebuild.
+  Context {V : Type}.
+  Variable init_default : string -> V.      (* the default of a constructor parameter *)
+  Variable as_value : amap V -> V.          (* a whole mapping landing in the first positional parameter *)
+  (* type(self)(keyword items): constructor parameters first (given or defaulted), then the other items *)
+  Definition rerun_kw (c : cls) (r : dres V) : dres V :=
+    match r with
+    | DObj c' m =>
+        if own_init c
+        then DObj c' (map (fun p => (p, match aget p m with Some v => v | None => init_default p end)) (init_params c)
+                      ++ filter (fun kv => negb (existsb (String.eqb (fst kv)) (init_params c))) m)
+        else r
+    | _ => r
+    end.
+  (* type(self)(a dict, positionally) *)
+  Definition rerun_pos (c : cls) (r : dres V) : dres V :=
+    match r with
+    | DObj c' m => match c with
+                   | CPoint => DObj c' [("x"%string, as_value m); ("y"%string, init_default "y"%string)]
+                   | CKwInit => DErr "TypeError"
+                   | _ => r
+                   end
+    | _ => r
+    end.
+  Definition d_and_py (c : cls) (d : amap V) (ks : list string) : dres V := rerun_kw c (d_and c d ks).
+  Definition d_relabel_py (c : cls) (d : amap V) (a : relabel_arg) (kw : list (string * string)) : dres V := rerun_kw c (d_relabel c d a kw).
+  Definition d_getlist_py (c : cls) (d : amap V) (ks : list string) : dres V := rerun_pos c (d_getlist c d ks).
+  Definition d_or_py (c : cls) (d : amap V) (o : amap V) : dres V := rerun_pos c (d_or c d o).
+End Rebuild.
 
 (* ------------------------------------------------------------------ a small heap: operations write only to a fresh copy *)
 Section Heap.
@@ -333,3 +369,47 @@ Fixpoint lz_eqb (a b : list Z) : bool :=
   end.
 Definition hv_eqb (a b : hv) : bool := lz_eqb (code a) (code b).
 
+
+(* ------------------------------------------------------------------ Dict + other on nested mappings (tree_update): used by the
+   correspondence for the "operands unchanged" clause on mappings whose values are themselves mappings (the merge law is C15's) *)
+Inductive tr := TLeaf (z : Z) | TNode (c : cls) (kids : list (string * tr)).
+(* tree_items: a value is a branch iff its EXACT type is dict / Dict / dictattr; anything else is a leaf *)
+Fixpoint titems (t : tr) : list (list string * tr) :=
+  match t with
+  | TNode c kids =>
+      if is_tree_type c
+      then (fix go (kids : list (string * tr)) : list (list string * tr) :=
+              match kids with
+              | [] => []
+              | (k, t') :: r => map (fun pv => (k :: fst pv, snd pv)) (titems t') ++ go r
+              end) kids
+      else [([], t)]
+  | TLeaf _ => [([], t)]
+  end.
+(* _tree_setitem on a copy: existing mappings on the path (isinstance dict: any class) are descended into, anything else
+   is replaced by a fresh base() *)
+Fixpoint tset (base : cls) (p : list string) (v : tr) (kids : list (string * tr)) : list (string * tr) :=
+  match p with
+  | [] => kids
+  | k :: p' =>
+      match p' with
+      | [] => aset k v kids
+      | _ => match aget k kids with
+             | Some (TNode c sub) => aset k (TNode c (tset base p' v sub)) kids
+             | _ => aset k (TNode base (tset base p' v [])) kids
+             end
+      end
+  end.
+Inductive tres := TOk (t : tr) | TErr (e : string).
+Definition tree_add (d other : tr) : tres :=
+  match d with
+  | TLeaf _ => TErr "TypeError"
+  | TNode c kids =>
+      match other with
+      | TNode oc _ =>
+          if is_tree_type oc
+          then TOk (TNode c (fold_left (fun acc pv => tset c (fst pv) (snd pv) acc) (titems other) kids))
+          else TErr "ValueError"          (* other itself is taken for a leaf: node item too short *)
+      | TLeaf _ => TErr "ValueError"
+      end
+  end.
